@@ -321,7 +321,56 @@ def from_kind(fn, consts, clsname):
 
 
 def setter_info(cls, key):
-    """AST of cls.set_<key> (resolved through the MRO): -> (attribute assigned, normaliser)"""
+    """cls.set_<key> (resolved through the MRO): -> (attribute assigned, normaliser).  Read from the AST of the setter;
+    where a rewrite leaves the recognised shapes the setter is probed instead (`_setter_probe`)."""
+    try:
+        return _setter_info_ast(cls, key)
+    except ExtractionError as e:
+        got = _setter_probe(cls, key)
+        if got is None:
+            raise e
+        return got
+
+
+def _setter_probe(cls, key):
+    """the setter called on fresh objects with candidate values: which ONE attribute changes, and whether it holds the
+    argument itself (`ident`), the tuple of a list argument (`tuple`) or the ip address object of a text (`ipAddress`);
+    None where no candidate decides it"""
+    import ipaddress
+    cands = [(["pa", "pb"], None)] + [(v, None) for v, _ in _candidates()]
+    seen = set()
+    for c, _ in cands:
+        o = cls()
+        before = dict(vars(o))
+        try:
+            getattr(o, "set_" + key)(c)
+        except Exception:
+            continue
+        changed = [a for a, v in vars(o).items() if a not in before or before[a] is not v]
+        if len(changed) != 1:
+            continue
+        v = getattr(o, changed[0])
+        if isinstance(c, tuple) and v is c:
+            continue        # (tuple(t) is t for a tuple: says nothing)
+        if v is c:
+            seen.add((changed[0], "ident"))
+        elif isinstance(c, list) and isinstance(v, tuple) and v == tuple(c):
+            seen.add((changed[0], "tuple"))
+        elif isinstance(c, tuple) and isinstance(v, tuple) and v == c:
+            seen.add((changed[0], "tuple"))
+        elif isinstance(c, str) and isinstance(v, (ipaddress.IPv4Address, ipaddress.IPv6Address)) and str(v) == c:
+            seen.add((changed[0], "ipAddress"))
+    # (a `tuple(...)` setter also returns an equal tuple for a tuple argument: `tuple` wins over nothing else)
+    if len({a for a, _ in seen}) == 1:
+        norms = {n for _, n in seen}
+        if norms == {"ident"} or norms == {"tuple"} or norms == {"ipAddress"}:
+            return seen.pop()
+        if norms == {"ident", "ipAddress"}:        # an ip address object passes through, a text is converted
+            return (next(iter(seen))[0], "ipAddress")
+    return None
+
+
+def _setter_info_ast(cls, key):
     fn = getattr(cls, "set_" + key)
     src = textwrap.dedent(inspect.getsource(fn))
     node = ast.parse(src).body[0]
@@ -888,7 +937,13 @@ def probe_kind(kind, tofn, fromfn, pycls, settable, type_enum, enums):
             except Exception:
                 always = False
             if not always:
-                raise ExtractionError("%s writes %s for a fresh sliver but not when `%s` is None" % (tofn, g, k))
+                # not an always-written row: the fresh sliver itself starts with a value for `k` (freshDefaults carries it)
+                try:
+                    starts_set = pycls().get_property(k) is not None
+                except Exception:
+                    starts_set = False
+                if not starts_set:
+                    raise ExtractionError("%s writes %s for a fresh sliver but not when `%s` is None" % (tofn, g, k))
         elif to(with_props({k: None}) if _accepts_none(pycls, k) else pycls()).get(g) is not None:
             raise ExtractionError("%s writes %s although `%s` is None" % (tofn, g, k))
         trows.append(([k], g, enc, always))
@@ -992,6 +1047,32 @@ def compare_rows(kind, ast_t, ast_f, pr_t, pr_f, sample_is_str):
         raise ExtractionError("%s: the from-table read from the AST and the one observed by probing differ at %s: %s vs %s" % (
             kind, diff, [fa.get(k) for k in diff], [fb.get(k) for k in diff]))
 
+
+
+def fresh_defaults(pycls):
+    """[(property, tag, text)] for every settable property a fresh `pycls()` does not read as None"""
+    import enum
+    out = []
+    obj = pycls()
+    for k in pycls.list_properties():
+        try:
+            v = obj.get_property(k)
+        except Exception as e:
+            try:        # (a settable name without a getter: the attribute its setter assigns)
+                v = getattr(obj, setter_info(pycls, k)[0])
+            except Exception:
+                raise ExtractionError("%s().get_property(%s) raises %s" % (pycls.__name__, k, type(e).__name__))
+        if v is None:
+            continue
+        if isinstance(v, bool):
+            out.append((k, "bool", "true" if v else "false"))
+        elif isinstance(v, enum.Enum):
+            out.append((k, "enum:" + type(v).__name__, v.name))
+        elif isinstance(v, str):
+            out.append((k, "str", v))
+        else:
+            raise ExtractionError("a fresh %s starts with %s = %r: no representation in the model" % (pycls.__name__, k, v))
+    return out
 
 
 def _lean_row(fields):
@@ -1214,6 +1295,18 @@ structure KindTable where
         tables.append(kind + "Table")
         report["kinds"][kind] = {"to": len(trows), "from": len(frows), "settable": len(settable)}
     body += "def tables : List KindTable := %s\n\n" % lean_list(tables)
+    # what a sliver object of each class holds before any setter ran (behavioural probe: `Cls()` read through its own
+    # getters).  `<Element>.set_property` writes the COMPLETE dictionary of such a fresh sliver with the one property set, so
+    # every non-None entry here is rewritten into the graph by every write of any other property.
+    fresh_rows = []
+    report["fresh"] = {}
+    for kind, tofn, fromfn, clsname in KINDS:
+        fresh_rows.append("(%s, %s)" % (lean_str(kind), lean_list(
+            ["(%s, %s, %s)" % (lean_str(k), lean_str(tag), lean_str(text)) for k, tag, text in fresh_defaults(classes[clsname])])))
+        report["fresh"][kind] = [k for k, _, _ in fresh_defaults(classes[clsname])]
+    body += ("/-- `<SliverClass>()` before any setter ran: kind -> [(property, tag, text)] for every settable property that does not\n"
+             "read None (tag: `bool` | `str` | `enum:<EnumClass>`) - probed -/\n"
+             "def freshDefaults : List (String × List (String × String × String)) :=\n  %s\n\n" % lean_list(fresh_rows))
     body += "/-- `SLIVER_PROPERTY_TO_GRAPH` (used by `unset_property`) -/\ndef unsetMap : List (String × String) :=\n  %s\n\n" % lean_list(
         ["(%s, %s)" % (lean_str(k), lean_str(v)) for k, v in unset])
     body += "/-- enums decoded with `from_string` (probed: name -> member, anything else -> None) -/\ndef enums : List (String × List String) := %s\n\n" % lean_list(
